@@ -11,6 +11,7 @@
     Props/C16_Properties.v;
 (3) Duration.count_periods on integral ratios (plain differential check, reported separately)."""
 from __future__ import annotations
+import os
 import common
 import explore as X
 import c01
@@ -311,7 +312,10 @@ def run(ck: common.Check, replay=None):
         return orig_violation(key, what, replay, no_input)
     ck.violation = violation
     try:
-        c01.run_programs(ck, progs, what="statement after wait_for does not execute exactly n clocks after it was reached")
+        # low=True: second theorem per program of Lower.in_grammar (constant durations; not n = 1 in first
+        # position, not run-time durations): emitted design = mstep (lower p) of the lowering model
+        c01.run_programs(ck, progs, what="statement after wait_for does not execute exactly n clocks after it was reached",
+                         low=os.environ.get("C16_NO_LOWER") is None)
     finally:
         ck.violation = orig_violation
     for n, p, m in wp:
